@@ -46,7 +46,7 @@ func Load(cfg LoadConfig) (*Program, error) {
 	pc := &packages.Config{
 		Mode:       packages.LoadAllSyntax,
 		Dir:        cfg.Dir,
-		BuildFlags: []string{"-tags=" + cfg.Tags},
+		BuildFlags: buildFlags(cfg.Tags),
 		Overlay:    cfg.Overlay,
 		Env:        append(os.Environ(), cfg.Env...),
 	}
@@ -140,4 +140,12 @@ func (in *interpreter) resetForPath(p *pathState) {
 
 func (in *interpreter) callTop(fn *ssa.Function, args []value) value {
 	return call(in, nil, 0, fn, args)
+}
+
+func buildFlags(tags string) []string {
+	fl := []string{"-tags=" + tags}
+	if mf := os.Getenv("VERIF_MODFILE"); mf != "" {
+		fl = append(fl, "-modfile="+mf)
+	}
+	return fl
 }
